@@ -1199,7 +1199,8 @@ def check_case(ctx, prog):
             return resolve_base(h, d, depth + 1) if d is not None else (None, [])
         if b.get('k') == 'bin' and b.get('op') == '+':
             for x, y in ((b['x'], b['y']), (b['y'], b['x'])):
-                if T(h, strip_lv(x).get('t')).get('ptr') or T(h, strip(x).get('t')).get('ptr') or T(h, strip(x).get('t')).get('n') is not None:
+                if T(h, strip_lv(x).get('t')).get('ptr') or T(h, strip(x).get('t')).get('ptr') or T(h, strip(x).get('t')).get('n') is not None or \
+                        (strip(x).get('k') == 'var' and strip(x).get('q') in tabs) or any(w.get('k') == 'var' and w.get('q') in tabs for w in walk_expr(x)):
                     r, offs = resolve_base(h, x, depth + 1)
                     if r is not None:
                         return r, offs + [y]
@@ -1243,14 +1244,28 @@ def check_case(ctx, prog):
                                 if r2 is not None and r2[0] == 'tab' and not offs2:
                                     sites.append((e, c, h, r2[1], idxs))
         for e, call, h, tab, idxs in sites:
+            ff, GG = f, G
+            if call is not None:
+                # index built from the helper's own locals (e.g. the code it decodes itself): decided inside the helper
+                pids = set(p_['id'] for p_ in h['params'])
+                local_atoms = False
+                try:
+                    for ix in idxs:
+                        bi, bt = bounded.atoms_of(prog, h, ix, allow_assigned=tuple(bounded.assigned_vars(h)))
+                        if bt or any(i not in pids for i in bi):
+                            local_atoms = True
+                except bytesets.Undecidable:
+                    local_atoms = False
+                if local_atoms:
+                    ff, GG, call = h, q.Guarded(h), None
             try:
                 if call is None:
                     by_id, by_text = {}, {}
                     for ix in idxs:
-                        bi, bt = bounded.atoms_of(prog, f, ix, allow_assigned=tuple(bounded.assigned_vars(f)))
+                        bi, bt = bounded.atoms_of(prog, ff, ix, allow_assigned=tuple(bounded.assigned_vars(ff)))
                         by_id.update(bi)
                         by_text.update(bt)
-                    guards = G.of(e)
+                    guards = GG.of(e)
                 else:
                     by_id, by_text = {}, {}
                     for a_ in call.get('a', []):
@@ -1262,11 +1277,11 @@ def check_case(ctx, prog):
                 ctx.undecided('C08.case', f['pq'], fname + ':table index guard', fwhere(f, (call or e)['l']), str(u))
                 continue
             top = None
-            rel = lambda c_: any((w.get('k') == 'var' and w.get('id') in by_id) or (w.get('k') in ('call', 'mem') and pe(w) in by_text) for w in walk_expr(q.expand(f, c_, bools_only=True)))
+            rel = lambda c_: any((w.get('k') == 'var' and w.get('id') in by_id) or (w.get('k') in ('call', 'mem') and pe(w) in by_text) for w in walk_expr(q.expand(ff, c_, bools_only=True)))
             try:
                 for v in GRID:
-                    ev = bounded.Bound(prog, f, dict((i, v) for i in by_id), dict((t, v) for t in by_text))
-                    if not bounded.admitted(ev, guards, G):
+                    ev = bounded.Bound(prog, ff if call is None else f, dict((i, v) for i in by_id), dict((t, v) for t in by_text))
+                    if not bounded.admitted(ev, guards, GG if call is None else G):
                         continue
                     if call is None:
                         iv = sum(ev.ev(ix) for ix in idxs)
